@@ -167,6 +167,9 @@ func (l *Lexer) Next(p []byte) (TokenType, []byte, error) {
 		if l.maxRecordSize > 0 && recordLen > uint64(l.maxRecordSize) {
 			return TokenError, nil, ErrRecordTooLarge
 		}
+		if recordLen > math.MaxInt64 {
+			return TokenError, nil, fmt.Errorf("%s record: %w", opcode, ErrLengthOutOfRange)
+		}
 
 		// Chunks and attachments require special handling to avoid
 		// materialization into RAM. If it's a chunk, open up a decompressor and
